@@ -130,8 +130,52 @@ def run(tier="quick", seed=0, repo="/repo"):
         df = cur.fetch_pandas_all()
         okp = list(df.columns) == ["A", "B"] and df.values.tolist() == [[1, "x"], [2, "y"]] and cur.rowcount == 2
         t.case(f"pandas:{dictcur}", ("pandas", dictcur), okp, case={"dict": dictcur}, expected="2 rows A,B", actual=df.values.tolist())
+    # a cursor that is re-used: whatever was fetched from the previous result, the next statement's result is handed out from its
+    # first row, completely - for every kind of next statement (query, DML status, DDL status, no-op'd statement, USE, failing)
+    fs2 = new_instance(repo, nop_regexes=[r"^call\s", r"alter session"])
+    conn2 = fs2.connect(database="db1", schema="s1")
+    conn2.cursor().execute("create or replace table reuse_t (i int)")
+    NEXT = [
+        ("query", "select column1 as a from (values (10),(20),(30)) order by 1"),
+        ("dml", "insert into reuse_t values (1)"),
+        ("ddl", "create or replace table reuse_u (i int)"),
+        ("nop", "call some_procedure()"),
+        ("nop2", "ALTER SESSION SET x = 1"),
+        ("use", "use schema s1"),
+        ("txn", "begin"),
+        ("empty", "select 1 as a where false"),
+    ]
+    PREV = [("partial", 1), ("drained", None), ("untouched", 0)]
+    for dictcur in (False, True):
+        for (nk, nsql), (pk, pn) in itertools.product(NEXT, PREV):
+            fresh = conn2.cursor(snowflake.connector.cursor.DictCursor) if dictcur else conn2.cursor()
+            fresh.execute(nsql)
+            want_rows, want_rc = fresh.fetchall(), fresh.rowcount
+            if nk == "txn":
+                conn2.cursor().execute("rollback")
+            cur = conn2.cursor(snowflake.connector.cursor.DictCursor) if dictcur else conn2.cursor()
+            cur.execute("select column1 as z from (values (1),(2),(3),(4)) order by 1")
+            if pn is None:
+                cur.fetchall()
+            elif pn:
+                cur.fetchmany(pn)
+                cur.fetchone()
+            try:
+                cur.execute(nsql)
+                first = cur.fetchone()
+                rest = cur.fetchall()
+                got_rows = ([] if first is None else [first]) + rest
+                ok = got_rows == want_rows and cur.rowcount == want_rc and cur.fetchone() is None
+                detail = f"rows {got_rows!r} rowcount {cur.rowcount}"
+            except Exception as e:  # noqa: BLE001
+                ok, detail = False, f"{type(e).__name__}: {e}"
+            if nk == "txn":
+                conn2.cursor().execute("rollback")
+            t.case(f"reuse:{nk}:after-{pk}:{'dict' if dictcur else 'tuple'}", ("reuse", nk, pk, dictcur), ok, function="fakesnow.cursor.FakeSnowflakeCursor.execute",
+                   case={"next": nsql, "previous": pk, "dict": dictcur}, expected=f"rows {want_rows!r} rowcount {want_rc} (as on a fresh cursor)", actual=detail)
+    conn2.close()
     conn.close()
-    return t.result(bound=f"fetch sequences of length <= {maxlen}; rows in {sorted({n for n, _ in shapes(tier)})}; 4 column lists; 2 cursor kinds")
+    return t.result(bound=f"fetch sequences of length <= {maxlen}; rows in {sorted({n for n, _ in shapes(tier)})}; 4 column lists; 2 cursor kinds; re-used cursor: 8 statement kinds (incl. no-op patterns) x 3 states of the previous result x 2 cursor kinds")
 
 
 def replay(case, repo):
